@@ -35,7 +35,7 @@ def floors(ctx):
             "repeated_entries": 100, "empty_rows": 100, "generator_rows": 50, "cases_with_prior_links": 200,
             "readback_cases": 300, "error_inputs": 100, "side_array_duplicates": 30, "exotic_truthy_cells": 200,
             "big_inputs": 4, "ragged_matrices_with_n_squared_cells": 50,
-            "rows_that_are_iterable_vertices": 100}
+            "rows_that_are_iterable_vertices": 100, "matrices_with_packed_rows": 200}
 
 
 def cell_value(c):
@@ -102,6 +102,19 @@ def run_case(ctx, case):
     else:
         side = [pool.get(v) for v in case["side"]]
         matrix = [[cell_value(c) for c in row] for row in case["matrix"]]
+        rowtype = case.get("rowtype", "list")
+        if rowtype != "list":
+            # rows of other sequence types; packed rows (bytes, bytearray, array) hold small ints, so a truthy cell
+            # is any non-zero byte - 1, 2, 7, 255 - and a falsy one is 0
+            import array
+
+            packed = [[((1, 2, 7, 255, 128)[(i * 31 + j * 7 + c[1]) % 5] if c[0] == "t" else 0) for j, c in enumerate(row)]
+                      for i, row in enumerate(case["matrix"])]
+            conv = {"tuple": lambda i: tuple(matrix[i]), "bytes": lambda i: bytes(packed[i]),
+                    "bytearray": lambda i: bytearray(packed[i]), "array": lambda i: array.array("B", packed[i])}[rowtype]
+            matrix = [conv(i) for i in range(len(matrix))]
+            if rowtype != "tuple":
+                ctx.count("matrices_with_packed_rows")
         n = len(matrix)
         bad = None
         if len(side) != n:
@@ -277,7 +290,8 @@ def gen_case(rng, big=False):
             k = rng.randint(1, max(1, len(matrix[i])))
             moved, matrix[i] = matrix[i][len(matrix[i]) - k:], matrix[i][:len(matrix[i]) - k]
             matrix[j] = matrix[j] + moved
-    return {"history": history, "builder": "matrix", "cls": cls, "side": side, "matrix": matrix}
+    return {"history": history, "builder": "matrix", "cls": cls, "side": side, "matrix": matrix,
+            "rowtype": rng.choice(["list", "list", "tuple", "bytes", "bytearray", "array"])}
 
 
 def big_cases():
